@@ -13,6 +13,9 @@ SETTINGS = [None, "rel", "abs"]
 FLAGS = ["none", "jf", "jfwd", "jfrel", "jfwdrel"]
 INVS = ["proj", "proj/x/y", "proj/mods", "elsewhere"]
 ATTRS = [None, "rel", "abs"]
+# (invocation directory, what is written in front of the recipe name); `@` stands for the scratch directory
+PATHWORDS = [("proj", "x/y/"), ("proj", "./x/"), ("proj/x/y", "../"), ("proj/x", "y/"), ("elsewhere", "../proj/x/y/"), ("elsewhere", "@/proj/x/"),
+             ("proj/mods", "../x/y/")]
 
 
 def space(tier, seed):
@@ -27,12 +30,23 @@ def space(tier, seed):
             continue  # `[no-cd]` with `[working-directory]` is rejected at compile time
         allc.append({"file": f, "set_root": sr, "set_sub": ss, "flags": fl, "inv": inv, "attr": at, "nocd": nocd,
                      "script": script, "reach": reach})
-    total = len(allc)
+    # the recipe named with a directory in front (`just DIR/recipe`): DIR has no justfile of its own, the search climbs from
+    # it to the project; nothing but the place the search starts from may depend on DIR
+    pathc = []
+    for f, sr, ss, (inv, word), at, nocd, script, reach in itertools.product(
+            FILES, SETTINGS, SETTINGS, PATHWORDS, ATTRS, [False, True], [False, True, "attr"], ["direct", "dep"]):
+        if nocd and at is not None:
+            continue
+        pathc.append({"file": f, "set_root": sr, "set_sub": ss, "flags": "none", "inv": inv, "attr": at, "nocd": nocd,
+                      "script": script, "reach": reach, "pathword": word})
+    total = len(allc) + len(pathc)
     if tier == "quick":
         rng = C.case_rng(seed, 0, "c09")
         rng.shuffle(allc)
+        rng.shuffle(pathc)
         allc = allc[:1200]
-    return allc, total
+        pathc = pathc[:240]
+    return allc + pathc, total
 
 
 def layout(d, c):
@@ -110,7 +124,7 @@ def layout(d, c):
         argv += ["--justfile", os.path.join(proj, "justfile")]
     if c["flags"] == "jfwd":
         argv += ["--working-directory", os.path.join(d, "other")]
-    argv.append(prefix + name)
+    argv.append(c.get("pathword", "").replace("@", d) + prefix + name)
     return {"argv": argv, "cwd": os.path.join(d, c["inv"]), "texts": texts, "paths": paths}
 
 
@@ -260,7 +274,7 @@ def run(report):
     report.coverage.update({
         "evaluations": len(cfgs),
         "distinct_nontrivial": len(distinct),
-        "rule": "product of {file containing the recipe: root, import of root, submodule, import of the submodule, module declared in an imported file, module nested in the submodule} x `set working-directory` in root and submodule {none, relative, absolute} x {no flags, --justfile, --justfile + --working-directory, the same two with relative paths in three spellings} x invocation directory {justfile dir, nested subdir, module dir, unrelated dir} x attribute {none, relative, absolute} x [no-cd] x {linewise, shebang, [script]} x {direct, via dependency, via an alias of the root, via an alias declared inside the submodule}; %s; distinct = distinct (configuration, observed directories)" % ("complete" if tier == "thorough" else "random sample of the space (size in stats)"),
+        "rule": "product of {file containing the recipe: root, import of root, submodule, import of the submodule, module declared in an imported file, module nested in the submodule} x `set working-directory` in root and submodule {none, relative, absolute} x {no flags, --justfile, --justfile + --working-directory, the same two with relative paths in three spellings} x invocation directory {justfile dir, nested subdir, module dir, unrelated dir} x attribute {none, relative, absolute} x [no-cd] x {linewise, shebang, [script]} x {direct, via dependency, via an alias of the root, via an alias declared inside the submodule}, plus the recipe named as DIR/recipe with seven (invocation directory, DIR) pairs whose DIR has no justfile of its own; %s; distinct = distinct (configuration, observed directories)" % ("complete" if tier == "thorough" else "random sample of the space (size in stats)"),
         "samples": samples,
         "exhaustive": tier == "thorough",
         "traces_validated_against_impl": len(cfgs),
